@@ -695,11 +695,13 @@ pub fn gen_refs(sim: &mut Sim, shared_consumer: bool) -> Program {
             Op::HoffVec => Order::Bag,
             _ => Order::Seq,
         };
-        // access groups
-        let n_groups = g.sim.choose("n_groups", 2, 4) as u32;
+        // access groups; 1 state in 4 is only read, through plain `#name` references (no group)
+        let plain = !shared_consumer && g.sim.flip("plain_refs", 1, 4);
+        let n_groups = if plain { 1 } else { g.sim.choose("n_groups", 2, 4) as u32 };
         let mut holder_outs: Vec<Open> = vec![];
         for grp in 0..n_groups {
-            let writer = g.sim.flip("writer", 2, 5);
+            let writer = !plain && g.sim.flip("writer", 2, 5);
+            let grp = if plain { u32::MAX } else { grp };
             let k = g.sim.choose("ref_src", 0, n_src as u64 - 1) as usize;
             let mut inp = tap(&mut g, k);
             for _ in 0..g.sim.choose("ref_pre", 0, 2) {
